@@ -766,6 +766,40 @@ func gen(r *Rng, tier string, emit Emit) {
 				_ = g2
 				emit("P", "p_edits", append([]string{cfg, H(x)}, steps...)...)
 			}
+			// emptying a nested volume: every file removed (no padding); one FFSv3 and (every third image) one
+			// FFSv2 volume, volumes with few files first
+			if len(targets) > 0 {
+				if t, err := parse(x); err == nil {
+					nestedVols = map[*uefi.FirmwareVolume]bool{}
+					type cand struct {
+						g [16]byte
+						n int
+					}
+					best := map[bool]*cand{} // by "is FFSv3"
+					seen := map[*uefi.FirmwareVolume]bool{}
+					for _, tg := range targets {
+						var g guid.GUID
+						copy(g[:], tg.GUID[:])
+						var ls []loc
+						findFiles(t, nil, g, &ls)
+						if len(ls) != 1 || ls[0].fv == nil || !ls[0].nested || seen[ls[0].fv] {
+							continue
+						}
+						seen[ls[0].fv] = true
+						v3 := ls[0].fv.FileSystemGUID == *uefi.FFS3
+						n := len(nonPadGUIDs(ls[0].fv))
+						if b := best[v3]; b == nil || n < b.n || (n == b.n && rr.Bool()) {
+							best[v3] = &cand{tg.GUID, n}
+						}
+					}
+					if b := best[true]; b != nil {
+						emit("P", "p_edits", cfg, H(x), "R"+H(b.g[:]))
+					}
+					if b := best[false]; b != nil && (thorough || it%3 == 0) {
+						emit("P", "p_edits", cfg, H(x), "R"+H(b.g[:]))
+					}
+				}
+			}
 			// repack: the volume that holds a file (any level), or the top-level volume by its name
 			if ((thorough && it%2 == 1) || (!thorough && it%3 == 1)) && len(all) > 0 {
 				re := rr.Fork(13)
